@@ -87,8 +87,19 @@ func ruleStateLevel() check.Rule {
 						seen[key] = true
 						c.Inc("state_writes_checked", 1)
 						if why, hot := hotByDefinition[declKey]; hot {
-							c.OK(key, w.Node.Pos(), "exempt: %s", why)
-							continue
+							// hot per *application*: the exemption covers state declared inside the application literal, not
+							// state hoisted above it (shared by every pipeline built from one operator value)
+							aboveApp := false
+							for i := di + 1; i < len(chain); i++ {
+								if l, ok := chain[i].(*ast.FuncLit); ok && scs[l] == nil && m.IsAppLit(info, l) {
+									aboveApp = true
+								}
+							}
+							if !aboveApp {
+								c.OK(key, w.Node.Pos(), "exempt: %s", why)
+								continue
+							}
+							crossed = "application literal (runs once per pipeline built) of a construct that is hot per application only"
 						}
 						c.Report(c.ArmedPkg(p.PkgPath), key, w.Node.Pos(),
 							"variable %q declared at %s is written (%s) inside a %s: state is shared between subscriptions/applications of one operator value",
@@ -134,7 +145,13 @@ func ruleStateLevel() check.Rule {
 						seenObj[v] = true
 						key := fmt.Sprintf("%s/obj-%s", wkey, v.Name())
 						c.Inc("state_writes_checked", 1)
-						if why, hot := hotByDefinition[declKey]; hot {
+						aboveApp := false
+						for i := di + 1; i < len(chain); i++ {
+							if l, ok := chain[i].(*ast.FuncLit); ok && scs[l] == nil && m.IsAppLit(info, l) {
+								aboveApp = true
+							}
+						}
+						if why, hot := hotByDefinition[declKey]; hot && !aboveApp {
 							c.OK(key, id.Pos(), "exempt: %s", why)
 							return true
 						}
